@@ -38,6 +38,10 @@ def guard_constants(P, fn):
                     out.append((src[2]['op'], b, ty, neg))
                 elif a is not None and b is None:
                     out.append((src[2]['op'] + "'", a, ty, neg))
+                elif a is None and b is None and ty in ('usize', 'u64', 'u32', 'u16', 'u8', 'i64', 'i32'):
+                    # two computed quantities against each other (a count against the bytes that are left): the twins must ask it too
+                    op_ = {'Gt': 'Lt', 'Ge': 'Le'}.get(src[2]['op'], src[2]['op'])
+                    out.append((op_ + '~', 'value-vs-value', ty, neg if op_ == src[2]['op'] else neg))
             elif src[0] == 'call' and any(n.endswith('RangeInclusive::<Idx>::contains') for n in callee_names(src[2])):
                 ro = B.origin(src[2]['args'][0])
                 if ro[0] == 'call':
@@ -345,6 +349,31 @@ def run(ctx):
                 ctx.bad('C13.4-offset-shape', inst, 'byte_offset is assigned %s, which is not of the form original_len - len(suffix)[ - 1]' % describe(B, c), ctx.where(B, ln=st['ln']),
                         key='SHAPE:%s:byte_offset' % B.path)
 
+
+    # ... and the context they are written to is this call's own
+    ctx.rule('C13.4-context-fresh', 'the ParsingContext that decode_borrowed hands to the parsers (and puts into its errors) is created in that call (ParsingContext::new / default / a literal): a context kept from an earlier call '
+             'still holds that call\'s byte_offset, which is reported for an input it never belonged to whenever a failure comes before the first write to it (an empty input)', floor=1)
+    DB = ctx.body(DEC + 'decode_borrowed')
+    if DB is not None:
+        n_cx = 0
+        for bb, t in DB.calls():
+            for a, ty_ in zip(t['args'], (t.get('aty') or []) + [''] * len(t['args'])):
+                if 'ParsingContext' not in ty_:
+                    continue
+                if not any(n_.startswith('erltf::') for n_ in callee_names(t)):
+                    continue
+                n_cx += 1
+                o = unwrap(DB.origin(a))[0]
+                inst = 'decode_borrowed:%s' % (callee_of(t)[0] or '?').rsplit('::', 2)[-2 if (callee_of(t)[0] or '').endswith('::new') else -1]
+                fresh = o is not None and ((o[0] == 'call' and str(o[1]).rsplit('::', 1)[-1] in ('new', 'default') and 'ParsingContext' in str(o[1])) or (o[0] == 'agg' and 'ParsingContext' in str(o[1].get('adt'))))
+                if o is not None and o[0] == 'call' and str(o[1]).endswith('::clone'):
+                    continue
+                if fresh:
+                    ctx.ok('C13.4-context-fresh', inst, 'context built by %s in this call' % (o[1] if o[0] == 'call' else 'a literal'), ctx.where(DB, bb))
+                else:
+                    ctx.bad('C13.4-context-fresh', inst, 'the parsing context comes from %s, not from a constructor in this call: an offset (and path) left in it by an earlier input is reported for this one'
+                            % (describe(DB, canon(DB, a))[:80]), ctx.where(DB, bb), key='PROV:%sdecode_borrowed:context-not-fresh' % DEC)
+        ctx.anchor(n_cx >= 1, DEC + 'decode_borrowed: ParsingContext handed to the parser')
 
     # ---------------- clause 5: map keys are merged by BorrowedTerm's order ------------------------------------
     # decode_borrowed collects MAP_EXT entries into a BTreeMap keyed by BorrowedTerm; the owned decoder keys by OwnedTerm.
